@@ -191,6 +191,10 @@ def run(ctx):
                     elif m_vs_zero(a) is not None:
                         if s not in m_vs_zero(a):
                             ok_site = False
+                    else:
+                        # any other comparison deciding a placement (the stored momentum of the PREVIOUS step, a price, a
+                        # counter ..): the propensity is no longer a function of this step's M alone
+                        extra_conditions.setdefault(c.loc(), (c, []))[1].append(a)
                 if ok_site:
                     feas.append(c)
             sides = [site_side(m, c) for c in feas]
